@@ -194,6 +194,28 @@ package martian
 //@   requires p != nil
 //@   modifies p.dial, http.Transport.Dial
 
+// The modifier setters never leave the proxy without a modifier: nil installs the no-op modifier (handle calls both
+// modifiers unconditionally).
+//@ func (*Proxy).SetRequestModifier
+//@   serves C01 C02
+//@   requires p != nil
+//@   modifies p.reqmod
+//@   ensures[nil-installs-the-no-op-modifier] p.reqmod != nil && (reqmod != nil ==> p.reqmod == reqmod)
+//@ func (*Proxy).SetResponseModifier
+//@   serves C01 C02
+//@   requires p != nil
+//@   modifies p.resmod
+//@   ensures[nil-installs-the-no-op-modifier] p.resmod != nil && (resmod != nil ==> p.resmod == resmod)
+// A handler registers with, and reports done to, the wait group of the proxy itself (the one Close waits on).
+//@ ghost field sync.WaitGroup.gAdd int
+//@ ghost field sync.WaitGroup.gDone int
+//@ extern func (*sync.WaitGroup).Add
+//@   modifies wg.gAdd
+//@   ensures wg.gAdd == old(wg.gAdd) + delta
+//@ extern func (*sync.WaitGroup).Done
+//@   modifies wg.gDone
+//@   ensures wg.gDone == old(wg.gDone) + 1
+
 //@ pred proxyReady(p *Proxy) = p != nil && p.reqmod != nil && p.resmod != nil && p.roundTripper != nil && tableIdle()
 
 // Closing reports true exactly when the receive from the closing channel was selected (the channel is never sent on,
@@ -291,8 +313,20 @@ package martian
 //@   modifies nUp
 //@   ensures nUp == old(nUp) + 1 && (result1 == nil) == (result0 != nil)
 
+// nReqWrite / nReqWriteProxy: the request was serialised in origin / authority form (Write) or in absolute-URI proxy
+// form (WriteProxy). A CONNECT handed to a downstream proxy is written with Write: its target is the authority.
+//@ ghost var nReqWrite int
+//@ ghost var nReqWriteProxy int
+//@ extern func (*http.Request).Write
+//@   modifies nReqWrite
+//@   ensures nReqWrite == old(nReqWrite) + 1
+//@ extern func (*http.Request).WriteProxy
+//@   modifies nReqWriteProxy
+//@   ensures nReqWriteProxy == old(nReqWriteProxy) + 1
 //@ ghost var dialedConn net.Conn
 //@ func (*Proxy).connect
+//@   modifies nReqWrite, nReqWriteProxy
+//@   ensures[connect-to-a-downstream-proxy-is-written-in-authority-form; C04] nReqWriteProxy == old(nReqWriteProxy) && (p.proxyURL != nil && result2 == nil ==> nReqWrite == old(nReqWrite) + 1)
 //@   serves C04 C02 C03
 //@   requires p != nil && req != nil && req.URL != nil
 //@   modifies nUp, dialedConn, net.Conn.connClosed, nConnClose
@@ -308,6 +342,7 @@ package martian
 
 // tgtW: the buffered writer towards the tunnel target; lastFlushed: the writer flushed last. Whatever still sits in the
 // target writer when the tunnel ends has to be flushed BEFORE the target connection is closed.
+//@ ghost var hsOK bool
 //@ ghost var tgtW *bufio.Writer
 //@ ghost var lastFlushed *bufio.Writer
 //@ func (*Proxy).handleConnectRequest
@@ -343,6 +378,12 @@ package martian
 //@   ensures[tunnel-end-releases-the-target-connection] p.mitm == nil && tunnelUp ==> tunnelConn.connClosed
 //@   ensures[tunnel-end-closes-the-client-connection] p.mitm == nil && tunnelUp ==> closeable(result)
 //@   at entry 0 before set tunnelUp = false
+// hsOK: the TLS handshake with the client succeeded. Only then does the session switch to the decrypted connection: after
+// a failed handshake the connection may live on in cleartext and must not look secure.
+//@   modifies hsOK
+//@   at entry 0 before set hsOK = false
+//@   at call 0 of Handshake after set hsOK = (result == nil)
+//@   at call all of setConn before assert[session-switches-to-the-decrypted-connection-only-after-a-successful-handshake; C05] hsOK
 //@   at recv all after set nJoin = nJoin + 1
 //@   at call all of handleConnectRequest$1 before set nCopy = nCopy + 1
 //@   ensures[every-started-copy-direction-is-joined-before-the-connections-are-released; C04] nJoin - old(nJoin) == nCopy - old(nCopy)
@@ -373,6 +414,8 @@ package martian
 //@   ensures nNow == old(nNow) + 1
 //@ func (*Proxy).handleLoop
 //@   serves C01 C02 C04 C05 C07
+//@   modifies p.conns.gAdd, p.conns.gDone
+//@   ensures[handler-registers-with-and-reports-to-the-proxys-own-wait-group; C07] p.conns.gAdd == old(p.conns.gAdd) + 1 && p.conns.gDone == old(p.conns.gDone) + 1
 //@   modifies nSess, nNow
 //@   at call all of newSession after set nSess = nSess + 1
 //@   loop 0 invariant nSess == old(nSess) + 1 && nNow - old(nNow) == nServe - old(nServe)
